@@ -743,7 +743,7 @@ def _grammar_part(sub, part):
                     o, base = run_one(sub, m, case, second=sub.thorough or pname in pn[:2])
                     sub.outcome(o if o[0] != "ok" else ("ok", o[1][0][6:] if o[1] else None, len(o[1])))
                     # the same environment written with plain numbers
-                    if pname in pn[:3] if sub.thorough else (pname == pn[0] or (k == 1 and pname == pn[1])):
+                    if pname in pn[:2] if sub.thorough else (pname == pn[0] or (k == 1 and pname == pn[1])):
                         c1 = {**case, "rep": "plain"}
                         o1, _ = run_one(sub, build(case, seed, rep="plain"), c1, second=False, variant=REP_CLASS["plain"], baseline=base)
                         sub.outcome(("plain", o1[0]) if o1[0] != "ok" else ("plain", "ok", o1[1][0][6:] if o1[1] else None))
@@ -1080,7 +1080,7 @@ def run(ctx):
     ctx.bound["poses"] = {str(k): pose_menu(ctx, k) for k in (0, 1, 2, 3)}
     ctx.bound["environments"] = ncase * len(heads)
     ctx.bound["bond_types_of_3_neighbours"] = "full 5^3" if ctx.thorough else "pairwise covering array OA(25,3,5)"
-    ctx.bound["representations"] = "every environment as enum members/symbols and as plain ints / atomic numbers / numpy integers; (as plain numbers: quick the first pose - two for one neighbour -, thorough the first three poses;) the first pose of every (selected head, neighbour spec) and every whole molecule also after a MoleculeLibrary and a ConformerLibrary write+read and after pickle"
+    ctx.bound["representations"] = "every environment as enum members/symbols and as plain ints / atomic numbers / numpy integers; (as plain numbers: quick the first pose - two for one neighbour -, thorough the first two poses;) the first pose of every (selected head, neighbour spec) and every whole molecule also after a MoleculeLibrary and a ConformerLibrary write+read and after pickle"
     hheads, hspecs = history_bases(ctx)
     ctx.bound["history_bases"] = len(hheads) * len(hspecs)
     ctx.bound["history"] = "queries " + "/".join(QUERIES) + " x edits connect_like (4 retypings, 1 bond fewer), del_bond(+connect), btype/f_order/formal_charge/formal_spin assigned in place, hint added/removed"
@@ -1106,9 +1106,18 @@ def replay(ctx, case):
         variant = f"history[{case['history']['query']};{case['history']['edit'][0]}]"
     elif rep != "members":
         variant = REP_CLASS[rep]
+    def members_baseline(mol, whole, keyclass=None):
+        # a representation variant is judged against the same molecule as first built / loaded
+        if rep == "members" or case.get("history"):
+            return None
+        b, _, _ = evaluate(ctx, mol, whole=whole, second=False, keyclass=keyclass, count=False)
+        return {x for x, _ in b}
+
     if kind == "environment":
+        base = members_baseline(materialise({**case, "rep": "members"}, ctx.seed, ctx.scratch), False)
         m = materialise(case, ctx.seed, ctx.scratch)
-        run_one(ctx, m, case, whole=bool(case.get("history")), variant=variant, baseline=None)
+        hist = bool(case.get("history"))
+        run_one(ctx, m, case, whole=hist, second=rep == "members" and not hist, variant=variant, baseline=base)
         return
     import molli
 
@@ -1127,6 +1136,9 @@ def replay(ctx, case):
         keyclass = "cdxml"
     else:
         raise HarnessError(f"unknown case kind {kind!r}")
+    base = None
     if rep != "members":
-        m = roundtrip(ctx.scratch, [m], rep)[0]
-    run_one(ctx, m, case, whole=True, keyclass=keyclass, variant=variant, baseline=None)
+        m2 = roundtrip(ctx.scratch, [m], rep)[0]
+        base = members_baseline(m, True, keyclass)
+        m = m2
+    run_one(ctx, m, case, whole=True, keyclass=keyclass, variant=variant, baseline=base)
